@@ -264,7 +264,7 @@ Section NullAware.
         (if has_null_key kb1 B then []
          else if map_is_empty false kb B then pb      (* build_batch_empty_build_side: all probe rows *)
          else filter (fun r => match kp1 r with None => false | _ => true end)
-                (snd (probe_batch hash TRightAnti false kb kp (fun _ _ => true) wl B (hd [] paging) pb [])))
+                (snd (probe_batch hash TRightAnti false kb kp (fun _ _ => true) wl B (hd [] paging) pb (repeat false (length B)))))
         ++ na_right_probe B (tl paging) pbs'
     end.
 End NullAware.
@@ -343,12 +343,13 @@ Section SMJ.
 End SMJ.
 
 (* ------------------------------------------------------------------ observation cases *)
-Inductive filt_spec := FNone | FLt | FEvenSum | FLeftGe (c : Z) | FRightGe (c : Z).
+Inductive filt_spec := FNone | FLt | FEvenSum | FLeftGe (c : Z) | FRightGe (c : Z) | FConst (b : bool).
 (* over the value column 3 of both sides; a NULL result does not pass *)
 Definition filt_of (f : filt_spec) : row -> row -> bool :=
   fun l r =>
     match f, zcol 3 l, zcol 3 r with
     | FNone, _, _ => true
+    | FConst b, _, _ => b          (* a filter without columns; constant NULL counts as false *)
     | FLt, Some a, Some b => a <? b
     | FEvenSum, Some a, Some b => (a + b) mod 2 =? 0
     | FLeftGe c, Some a, _ => c <=? a
